@@ -9,7 +9,7 @@ demo=$(ls demo_*.py | head -1)
 export PYTHONDONTWRITEBYTECODE=1 PYTHONWARNINGS=ignore
 ( /venv/bin/python $demo > $out/demo_with.log 2>&1; echo $? > $out/demo_with.rc )
 ( /venv/bin/python -m pytest -q -p no:cacheprovider --timeout=900 > $out/tests_with.log 2>&1; tail -1 $out/tests_with.log > $out/tests_with.summary )
-git stash -q -- jesse
+git checkout -- jesse   # (not git stash: the stash is shared between worktrees)
 ( /venv/bin/python $demo > $out/demo_without.log 2>&1; echo $? > $out/demo_without.rc )
-git stash pop -q
+git apply $out/patch.diff
 echo "$name: demo_with=$(cat $out/demo_with.rc) demo_without=$(cat $out/demo_without.rc) tests: $(cat $out/tests_with.summary)"
